@@ -105,7 +105,7 @@ def encode(e, tid, n):
         o.update(kind=e["kind"], conn=e["conn"], ch=e["ch"], x=e["x"], key=_s(e["key"]), sn=e["sn"], mid=e["mid"],
                  corr=_s(e["corr"]), corrbase=_s(_strip(e["corr"])), replyto=e["replyto"], exp=_s(e["exp"]),
                  mand=e["mand"], routed=e["routed"],
-                 exec=_s(e.get("exec", "")), state=_s(e.get("state", "")), depth=len(br),
+                 exec=_s(e.get("exec", "")), state=_s(e.get("state", "")), stype=_s(e.get("stype", "")), depth=len(br),
                  stack=[[_s(b[0]), b[1] if isinstance(b[1], int) else -1] for b in br], bparent=_s(e.get("bparent", "")),
                  bid=_s(top[0]), bidx=top[1] if isinstance(top[1], int) else -1,
                  blen=top[2] if isinstance(top[2], int) else -1, brange=_s(top[3]),
@@ -171,6 +171,8 @@ def encode(e, tid, n):
         o.update(arn=_s(e["arn"]), smtype=e["smtype"], mc=[{"state": _s(a), "n": b} for a, b in e.get("mc", [])])
     elif k == "escaped":
         o.update(err=_s(e["err"]))
+    elif k == "expect":
+        o.update(exec=_s(e["exec"]), status=_s(e["status"]), output=_opt(e.get("output")), error=_opt(e.get("error")), strict=bool(e["strict"]))
     elif k == "api":
         b = e.get("body")
         o.update(action=e["action"], status=e["status"], i=e.get("i", ""), front=e.get("front", ""),
